@@ -184,11 +184,9 @@ def scorer_rebuild_check():
     return True
 
 
-def extract():
+def extract_data():
+    """the data constants only (what the direct oracles need); does not look at the shape of the code"""
     C = {}
-    C["seg_lower_aligned"] = lower_aligned()
-    C["scorer_rebuild_check"] = scorer_rebuild_check()
-    C["scorer_mw_threshold"], C["scorer_mw_min_len"], C["scorer_mw_max_len"], C["scorer_mw_skip"] = scorer_multiword()
     rows, nkb, mk, fp = keyboards()
     C["kb_rows_flat"] = rows              # 8 rows per layout, layouts in search order
     C["kb_layouts"] = nkb
@@ -207,6 +205,15 @@ def extract():
     C["mw_threshold"] = kw["threshold"]
     C["mw_min_len"] = kw["min_len"]
     C["mw_max_len"] = kw["max_len"]
+    return C
+
+
+def extract():
+    C = {}
+    C["seg_lower_aligned"] = lower_aligned()
+    C["scorer_rebuild_check"] = scorer_rebuild_check()
+    C["scorer_mw_threshold"], C["scorer_mw_min_len"], C["scorer_mw_max_len"], C["scorer_mw_skip"] = scorer_multiword()
+    C.update(extract_data())
     for k in ("kb_min_run", "mw_threshold", "mw_min_len", "mw_max_len", "scorer_mw_threshold", "scorer_mw_min_len",
               "scorer_mw_max_len", "scorer_mw_skip"):
         if not isinstance(C[k], int) or isinstance(C[k], bool) or C[k] < 0:
